@@ -30,7 +30,7 @@ class EvWalker(lib_core.CoreWalker):
 
 
 def run(ctx):
-    fbs = ctx.facts(['K17', 'K20'], kinds=('probe', 'lib'), only=r'p_coro\.cpp$|p_async\.cpp$|src/algo|src/util')
+    fbs = ctx.facts(['K17', 'K20'], kinds=('probe', 'lib'), only=r'p_coro\.cpp$|p_async\.cpp$|src/algo|src/util', tests=r'/test/')
     rw = ctx.rule('R-WORD', 'protocol of OneShotEvent::_head and of the counter', minimum=8)
     ro = ctx.rule('R-ORDER', 'role minimum orders of _head / count', minimum=8)
     rc = ctx.rule('R-CASKIND', 'waiter push: weak CAS in a loop re-testing all-done', minimum=1)
